@@ -320,7 +320,7 @@ for fn, nm, path in ((1, 'swprintf_s', 'src/wchar/swprintf_s.c'), (2, 'vswprintf
 # ---- engine A: wcsncat_s (all eight loops under contract)
 J('A.wcsncat_s.arena', ['C01', 'C02', 'C03', 'C04', 'C05', 'C08'], 'A', 'contracts/wchar/wcsncat_s.spec.c',
   sources=['src/wchar/wcsncat_s.c'], overlays={'src/wchar/wcsncat_s.c': 'contracts/wchar/wcsncat_s.loops'},
-  enforce='_wcsncat_s_chk', functions=['_wcsncat_s_chk', 'handle_werror'], sliced=True, timeout=1500, mem_gb=8,
+  enforce='_wcsncat_s_chk', functions=['_wcsncat_s_chk', 'handle_werror'], sliced=True, timeout=1500, mem_gb=8, tiers=('dev',),
   note='one arena, disjoint extents, both pointer orders; sizes symbolic up to RSIZE_MAX_WSTR; memset by ghost-index contract',
   assumptions=['A.wcsncat_s: memset(s, 0, n) is modelled by havoc of the region plus "the observed ghost elements are zero"'])
 
